@@ -32,6 +32,11 @@ pub fn base_files(tier: Tier) -> Vec<(String, XzFile)> {
             .collect();
         v.push((format!("2 block(s) check {} csize-field {} usize-field {}", check, cs, us), XzFile { check_id: check, blocks, ..Default::default() }));
     }
+    // a block header of the maximum size (1024 bytes: about a thousand padding bytes)
+    {
+        let (p, plain) = payload(1, 2, 9);
+        v.push(("1 block check 1 with a 1024-byte header".into(), XzFile { check_id: 1, blocks: vec![Block { payload: p, plain, with_usize: true, extra_pad4: 252, ..Default::default() }], ..Default::default() }));
+    }
     if tier == Tier::Thorough {
         let kinds: Vec<(bool, bool, usize)> = vec![(false, false, 0), (true, false, 0), (false, true, 1), (true, true, 0), (false, false, 3), (true, true, 6)];
         for (a, ka) in kinds.iter().enumerate() {
@@ -321,7 +326,10 @@ pub fn field_mutants(f: &XzFile) -> Vec<(String, XzFile)> {
         }
         {
             let (a, b) = span(&format!("block{}.header_pad", bi));
-            for i in 0..(b - a).min(6) {
+            let plen = b - a;
+            let mut where_: Vec<usize> = (0..plen.min(6)).collect();
+            where_.extend([63usize, 64, 255, 256, 511, 512, 513, 700, 1000].into_iter().filter(|i| *i < plen));
+            for i in where_ {
                 for val in [1u8, 0xFF] {
                     let mut p = vec![0u8; b - a];
                     p[i] = val;
@@ -496,6 +504,65 @@ pub fn run(tier: Tier) -> i32 {
             }
         });
         ctx.scope_done("(c) every truncation", tr.len() as u64, t1, "");
+    }
+    // ---------------------------------------------------------------- (d) blocks with a chain of two LZMA2 filters. The .xz format allows
+    // LZMA2 only as the last filter, so the reference parser has no opinion on such files; lzma-rs decodes them (each
+    // stage in turn). Whatever it does with the honest file, the declared sizes must be those of the block as stored:
+    // compressed size = bytes of the block's data in the file, uncompressed size = bytes delivered.
+    {
+        use crate::refmodel::lzma2::{self, Chunk};
+        let t2 = Instant::now();
+        let mut n = 0u64;
+        for (nstage, dlen) in [(2usize, 37usize), (3, 300), (2, 5000)] {
+            let data: Vec<u8> = (0..dlen as u32).map(|i| (i * 31 + 7) as u8).collect();
+            let mut stage = data.clone();
+            let mut lens = Vec::new();
+            for _ in 0..nstage {
+                let cs: Vec<Chunk> = stage.chunks(65536).enumerate().map(|(k, c)| Chunk::U { reset: k == 0, data: c.to_vec() }).collect();
+                stage = lzma2::write(&cs).bytes;
+                lens.push(stage.len());
+            }
+            let filters: Vec<(Vec<u8>, Vec<u8>, Vec<u8>)> = (0..nstage).map(|_| (mbi(0x21), mbi(1), vec![0x16u8])).collect();
+            let base = XzFile { check_id: 1, blocks: vec![Block { payload: stage.clone(), plain: data.clone(), with_csize: true, with_usize: true, o_filters: Some(filters), ..Default::default() }], ..Default::default() };
+            let (bytes, _) = xz::build(&base);
+            // (whether or not the honest file is accepted, a file whose declared sizes are wrong must not be)
+            let _ = &bytes;
+            let true_c = stage.len() as u64;
+            let mut cands: Vec<(String, Option<u64>, Option<u64>)> = Vec::new();
+            for l in &lens {
+                if *l as u64 != true_c {
+                    cands.push((format!("compressed size := {} (length of an inner stage)", l), Some(*l as u64), None));
+                }
+            }
+            for d in [1u64, 2, 4, 8] {
+                cands.push((format!("compressed size := true - {}", d), Some(true_c - d), None));
+                cands.push((format!("compressed size := true + {}", d), Some(true_c + d), None));
+            }
+            for l in lens.iter().chain([dlen + 1, dlen - 1].iter()) {
+                if *l != dlen {
+                    cands.push((format!("uncompressed size := {}", l), None, Some(*l as u64)));
+                }
+            }
+            for (what, c, u) in cands {
+                let mut g = base.clone();
+                if let Some(c) = c {
+                    g.blocks[0].o_csize = Some(mbi(c));
+                }
+                if let Some(u) = u {
+                    g.blocks[0].o_usize = Some(mbi(u));
+                }
+                let (m, _) = xz::build(&g);
+                let (v, out, consumed) = dec_plain(Fmt::Xz, &Opts::default(), &m);
+                n += 1;
+                ctx.eval(1);
+                ctx.nontriv(1);
+                if !v.is_err() {
+                    let case = Case::Dec { fmt: Fmt::Xz, opts: Opts::default(), input: Hex(m), rd: Rd::default(), sk: Sk::default() };
+                    ctx.violation(&case, &format!("block with {} chained LZMA2 filters ({} data bytes, {} bytes stored), header CRC repaired, declared {}: the declared size disagrees with the block => Err", nstage, dlen, true_c, what), &obs_of(v, out, consumed), None);
+                }
+            }
+        }
+        ctx.scope_done("(d) declared sizes of blocks with chained LZMA2 filters", n, t2, "wrong declared sizes are refused whether or not the decoder takes such chains");
     }
     ctx.set_extra("base_files", json!(bases.iter().map(|b| b.0.clone()).collect::<Vec<_>>()));
     ctx.finish()
